@@ -596,9 +596,25 @@ fn c07(r: &Runner) {
             }
             slices.extend(cur);
         }
+        // LONG slices: far more limbs than the type has (a zero-extended value is representable; a fixed-size zero block
+        // compared against the excess limbs is sized for typical widths): excess of 63..=66, 127..=130 and 300 limbs, all
+        // zero, or with one non-zero limb at the first / middle / last excess position
+        for extra in [63usize, 64, 65, 66, 127, 128, 129, 130, 300] {
+            let mut base = vec![0u64; nl + extra];
+            for (i, x) in base.iter_mut().take(nl).enumerate() {
+                *x = if i + 1 == nl { mask(bits) } else { u64::MAX };
+            }
+            slices.push(base.clone());
+            slices.push(vec![0u64; nl + extra]);
+            for pos in [nl, nl + extra / 2, nl + extra - 1] {
+                let mut w = base.clone();
+                w[pos] = 1;
+                slices.push(w);
+            }
+        }
         slices.sort();
         slices.dedup();
-        r.universe(&format!("limb slices of length 0..={} ({} slices)", nl + 2, slices.len()), bits, slices.len(), |i, l| {
+        r.universe(&format!("limb slices of length 0..={} and with 63..=300 excess limbs ({} slices)", nl + 2, slices.len()), bits, slices.len(), |i, l| {
             let args = [V::U(slices[i].clone())];
             l.states(1);
             for &op in SLICE_OPS {
